@@ -17,7 +17,7 @@ CONSTANTS
   JsonAttr = TRUE
   Emit = TRUE
   OptIsDynamic = FALSE
-  OptSkipDynamic = FALSE
+  OptSkipDynamic = TRUE
   Edits = FALSE
 INVARIANT NoPendingInv
 INVARIANT EmitInv
